@@ -76,6 +76,7 @@ pub enum G {
     /// harness-only: the same as `cnext`, written with `next_maybe` + `peek` + `span_since` / `InputRef::parse` / `InputRef::check`
     CNextMaybe(u64),
     CParse(Box<G>),
+    TryMapSpan(Box<G>),
     CCheck(Box<G>),
     CTake2(u64),
     CNothing,
@@ -333,6 +334,7 @@ impl<'a> Rd<'a> {
             "cnext" => G::CNext(self.nat()?),
             "cnextmaybe" => G::CNextMaybe(self.nat()?),
             "cparse" => G::CParse(self.bg()?),
+            "trymapspan" => G::TryMapSpan(self.bg()?),
             "ccheck" => G::CCheck(self.bg()?),
             "ctake2" => G::CTake2(self.nat()?),
             "cnothing" => G::CNothing,
